@@ -129,6 +129,22 @@ def _run(ctx, uc, lmp, quick):
             if not close(got, want):
                 ctx.violation('unit expression evaluated with the wrong precedence/value', '%r -> %r expected %r (cfg %s)' % (s, got, want, kw), c)
             ctx.traces += 1
+    # every name of the unit table is a unit expression on its own (also the ones with '_' or a non-ASCII character in them) and in a
+    # product / quotient with a literal: the table value, and the identity through set_in_units / get_in_units
+    for kw in cfgs[:2]:
+        uc.reset_units(**kw)
+        for name in sorted(uc.unit):
+            ctx.count()
+            ctx.nontriv(('name', name, json.dumps(kw, sort_keys=True)))
+            try:
+                v, v2, v3 = uc.parse(name), uc.parse('2*' + name), uc.parse(name + '/4')
+                back = uc.get_in_units(uc.set_in_units(1.5, name), name)
+            except Exception as e:
+                ctx.violation('parse raised %s on a well-formed expression' % excname(e), 'unit name %r %s' % (name, repr(e)[:100]))
+                continue
+            tv = uc.unit[name]
+            if not (close(v, tv) and close(v2, 2 * tv) and close(v3, tv / 4) and close(back, 1.5)):
+                ctx.violation('unit expression evaluated with the wrong precedence/value', 'unit name %r -> %r, table value %r' % (name, v, tv))
     ctx.sample({'kind': 'S->C parse case', **[c for c in cases if c['kind'] == 'parse' and '(' in c['s'] and '^' in c['s']][5]})
     # ---- histories of resets ---------------------------------------------------------------------------------
     hists = []
